@@ -217,8 +217,36 @@ fn jitter_edge_case(sub: &str, id: u64, r: &mut Report) {
     jitter_run(readings, p.u64(), *p.pick(&[1u8, 2, 3]), &ops, "edge_deltas", sub, id, r);
 }
 
+/// JitterRng::new() on the platform clock (non-deterministic values; only
+/// "no panic" is decided here)
+fn real_clock_case(sub: &str, id: u64, r: &mut Report) {
+    let mut p = Prng::new(id);
+    let res = guarded(|| {
+        let mut g = match JitterRng::new() { Ok(g) => g, Err(_) => return false };
+        for _ in 0..p.range(1, 6) {
+            match p.below(7) {
+                0 => { g.next_u32(); }
+                1 => { g.next_u64(); }
+                2 => { let mut b = vec![0u8; p.below(40) as usize]; g.fill_bytes(&mut b); }
+                3 => { g.timer_stats(p.chance(1, 2)); }
+                4 => { if let Ok(rr) = g.test_timer() { g.set_rounds(rr); } }
+                5 => { g.set_rounds(1 + p.below(4) as u8); }
+                _ => { let _ = format!("{:?}", g); }
+            }
+        }
+        true
+    });
+    r.eval();
+    match res {
+        Ok(true) => { r.cov("real_clock_instances"); r.distinct(hkey(&[&"real_clock", &id])); }
+        Ok(false) => r.cov("real_clock_timer_rejected"),
+        Err(c) => report_panic(&c, "JitterRng::new()+ops", json!({"note": "platform clock; not replayable bit for bit"}), sub, id, r),
+    }
+}
+
 fn case(sub: &str, id: u64, explicit: Option<&Value>, r: &mut Report) {
     match sub {
+        "real_clock" => real_clock_case(sub, id, r),
         "jitter" => jitter_case(sub, id, explicit, r),
         "jitter_edges" => jitter_edge_case(sub, id, r),
         _ => {
@@ -240,6 +268,7 @@ pub fn run(ctx: &Ctx, only: Option<&Only>) -> Report {
     let mut total = drive(ctx, "seeded", 40_000, secs * 0.4, |id, r| case("seeded", id, None, r));
     total.merge(drive(ctx, "jitter", 8_000, secs * 0.4, |id, r| case("jitter", id, None, r)));
     total.merge(drive(ctx, "jitter_edges", 8_000, secs * 0.2, |id, r| case("jitter_edges", id, None, r)));
+    total.merge(drive(ctx, "real_clock", 48, 0.0, |id, r| case("real_clock", id, None, r)));
     if ctx.scale >= 1.0 {
         for n in TYPE_NAMES {
             total.floor(&format!("type:{}", n), 50);
